@@ -46,6 +46,11 @@ def program(shape, variant, corpus):
     """one TypeScript module of the given shape: k order suspensions, ending in a value or an uncaught error"""
     rnd = random.Random(variant * 1000003 + shape["k"] * 17 + (5 if shape["end"] == "error" else 0))
     out = ['import { LOG } from "verif:host";', 'import { order } from "tsrun:host";']
+    # every program also uses the host's providers: console (captured), timers (console.time follows the installed clock) and regular
+    # expressions; odd variants run under a host policy that compiles every pattern case-insensitively (the same patterns are used by
+    # the other instances and by the junk lifetimes under the default provider)
+    if variant % 2 == 1: out.append("//@regexp-ci")
+    out.append('console.time("t"); console.log("c", Date.now()); LOG("Hello WORLD".replace(/world/, "there"), "a-B-c".split(/b/).join("|"), "xAy".search(/a/), /^(x+)+y$/.test("XXY"), "Tab".match(/t/g)?.length); console.timeEnd("t"); console.warn("w");')
     ex = rnd.sample(EXPORTS, 5)
     out.append("export const %s = %d;" % (ex[0], rnd.randint(0, 99)))
     out.append("export let %s: any = { n: [%d] };" % (ex[1], rnd.randint(0, 9)))
@@ -179,6 +184,30 @@ def main(tier):
                 break
         nproc_ok += same
     log("%d programs x %d fresh processes: %d identical" % (len(solo_jobs), reps, nproc_ok))
+    # ---- the ORDER in which module requests are reported is part of the observable behaviour: fan-out graphs, fresh processes
+    import c09, modgen
+    graphs = [[[1], [2, 3, 4, 5], [], [], [], []], [[1, 2], [3, 4, 5], [4, 5, 6], [], [], [], []], [[1], [2], [3, 4, 5, 6, 7], [], [], [], [], []]]
+    mjobs = []
+    for gi, deps in enumerate(graphs):
+        src = modgen.gen_sources(deps, random.Random(gi + 1), plain=True, base="/p/")
+        # the host supplies, round by round, exactly what was asked for (a topological layering of the graph)
+        level = {0: 0}
+        for m in range(len(deps)):
+            for d_ in deps[m]: level[d_] = max(level.get(d_, 0), level.get(m, 0) + 1)
+        rounds = [[m for m in range(1, len(deps)) if level.get(m) == l] for l in range(1, max(level.values()) + 1)]
+        mjobs.append({"t": gi + 1, "deps": c09.pad(deps), "sources": {str(k_): v for k_, v in src.items()}, "rounds": rounds, "finish": True, "base": "/p/"})
+    mouts = []
+    for rep in range(max(reps, 6)):
+        pr = subprocess.run([exe, "modules"], input="\n".join(json.dumps(j) for j in mjobs) + "\n", capture_output=True, text=True, timeout=600)
+        mouts.append([l for l in pr.stdout.split("\n") if l.strip()])
+    mod_ok = 0
+    for k_ in range(len(mjobs)):
+        texts = {o[k_] if k_ < len(o) else None for o in mouts}
+        if len(texts) == 1 and None not in texts: mod_ok += 1; continue
+        a, b = (list(texts) + [None])[:2]
+        c.report({"kind": "instances", "what": "module-request-order"}, {"job": mjobs[k_], "trace_a": a, "trace_b": b},
+                 "the module graph %s is driven identically in %d fresh processes but the recorded traces (order of the requests inside NeedImports) differ:\n  %s\n  %s" % (graphs[k_], len(mouts), (a or "")[:300], (b or "")[:300]))
+    log("%d fan-out module graphs x %d fresh processes: %d with identical request order" % (len(mjobs), len(mouts), mod_ok))
     c.sample({"schedule": " ".join("%d:%s" % (e["i"], e["op"]) for e in scheds[len(scheds) // 2][1]["sched"]), "shapes": [shape_key(x) for x in scheds[len(scheds) // 2][1]["shapes"]]})
     c.sample({"program": progcache[next(iter(progcache))][:1500]})
     c.cov["traces_validated_against_impl"] = ok
